@@ -265,8 +265,6 @@ def parse_human(text):
             if i < len(lines) and re.match(r"^ *\|$", lines[i]):
                 i += 1
             continue
-        if cur is not None and cur["location"] is None and not cur.get("closed"):
-            cur["header"] += "\n" + l   # message containing a line break
         i += 1
     return blocks
 
